@@ -17,6 +17,7 @@ pub mod sweep;
 pub mod faults;
 pub mod c16;
 pub mod c17;
+pub mod c18;
 pub mod c19;
 pub mod c20;
 
@@ -54,6 +55,7 @@ pub fn all() -> Vec<PropDef> {
     },
     PropDef { id: "C20", spaces: c20::spaces, assumptions: c20::ASSUMPTIONS, budget: (60.0, 3000.0), post: None },
     PropDef { id: "C17", spaces: c17::spaces, assumptions: c17::ASSUMPTIONS, budget: (120.0, 3000.0), post: None },
+    PropDef { id: "C18", spaces: c18::spaces, assumptions: c18::ASSUMPTIONS, budget: (120.0, 3000.0), post: None },
     PropDef { id: "C19", spaces: c19::spaces, assumptions: c19::ASSUMPTIONS, budget: (60.0, 3000.0), post: None },
     PropDef {
         id: "C16",
